@@ -62,16 +62,16 @@ def operand_shape(ctx, b, o, depth=0):
     return 'expr'
 
 
-def operand_kind(ctx, b, o, depth=0):
+def operand_kind(ctx, b, o, depth=0, fields=True):
     """Rename/move-robust description of an operand: a constant, a state field, or just its integer type
-    (through casts: `cast(u32)` = widened from u32)."""
+    (through casts: `cast(u32)` = widened from u32).  fields=False: the type-level form (a field is described by its type)."""
     if o.get('k') == 'const':
         if 'item' in o:
             return 'const:' + norm(o['item']).split('::')[-1]
         return 'const:%s' % o.get('val', o.get('text'))
     pl = o['pl']
     fs = [f for f in place_fields(pl) if f[1] and not str(f[1]).isdigit()]
-    if fs:
+    if fs and fields:
         return 'field:%s' % fs[-1][1]
     l = pl['l']
     ty = o.get('pty') or b.local_ty(l)['s']
@@ -88,7 +88,7 @@ def operand_kind(ctx, b, o, depth=0):
                     return 'cast(%s)' % src
                 return ty
             if rv['rv'] == 'use' and op_place(rv['op']) is not None:
-                return operand_kind(ctx, b, rv['op'], depth + 1)
+                return operand_kind(ctx, b, rv['op'], depth + 1, fields)
             if rv['rv'] == 'unop' and rv['op'] == 'PtrMetadata':
                 return 'len'
     return ty
@@ -108,6 +108,7 @@ def rule_inv_arith(ctx):
     want = {e['key']: e for e in table['sites']}
     found = Counter()
     where = {}
+    tkey = {}
     auto = 0
     for nid, b in sorted(prog.bodies.items()):
         for bi, t in b.all_terms():
@@ -159,16 +160,24 @@ def rule_inv_arith(ctx):
                     auto += 1
                     continue
             kinds = [operand_kind(ctx, b, o) for o in ops]
+            tkinds = [operand_kind(ctx, b, o, fields=False) for o in ops]
             # UNIT-STEP: +1 on a 32/64-bit counter cannot overflow before 2^32 / 2^64 steps (each step is one object or one loop iteration)
-            if kind == 'Overflow(Add)' and len(ops) == 2 and const_of(ops[1]) == 1 and kinds[0] in ('u64', 'usize', 'field:len', 'field:entry_count', 'field:size', 'u32'):
+            if kind == 'Overflow(Add)' and len(ops) == 2 and const_of(ops[1]) == 1 and tkinds[0] in ('u64', 'usize', 'u32'):
                 r.instance(function=nid, kind=kind, operands=shapes, discharged='UNIT-STEP')
                 auto += 1
                 continue
             key = '%s|%s' % (kind, ','.join(kinds))
             found[key] += 1
             where[key] = (nid, t.get('line'))
+            tkey[key] = '%s|%s' % (kind, ','.join(tkinds))
+    twant = table.get('type_level', {})
     for key, n in sorted(found.items()):
         ent = want.get(key)
+        if ent is None and (tkey[key] in twant or tkey[key] in want):
+            # the same arithmetic on a renamed / moved field: reviewed at type level
+            src_ = twant.get(tkey[key], tkey[key])
+            ent = dict(want[src_])
+            ent['reason'] = 'type-level form of reviewed `%s`: %s' % (src_, ent['reason'])
         nid, line = where[key]
         if ent is None:
             r.instance(site=key, count=n, discharged=None)
@@ -291,27 +300,55 @@ def rule_inv_unsafe(ctx):
     want = {e['group']: e for e in table['groups']}
 
     def group_of(owner):
-        """pointer modules are reviewed as a whole; cache-level code per root function"""
+        """pointer modules are reviewed as a whole; unsafe code elsewhere ('cache level') is classified by the unsafe operation it performs"""
         root = prog.bodies[owner].root if owner in prog.bodies and prog.bodies[owner].root else owner
         for g in table['module_groups']:
             if root.startswith(g) or root.startswith('<' + g) or root.startswith('<&mut ' + g):
                 return g
-        from .roles import _FALLBACK, named as _nm
-        for k_ in _FALLBACK:
-            if _nm(ctx, k_) == root:
-                return _FALLBACK[k_]      # reviewed under the name the role had when it was reviewed
-        return root
-    c = Counter(group_of(norm(u['owner'])) for u in ctx.facts['unsafe_blocks'])
+        return None
+    c = Counter()
+    cache_level = []
+    for u in ctx.facts['unsafe_blocks']:
+        g = group_of(norm(u['owner']))
+        if g is None:
+            if u.get('user', True):
+                cache_level.append(u)
+        else:
+            c[g] += 1
     for g, n in sorted(c.items()):
-        ent = want.get(g)
-        if ent is None:
-            r.instance(group=g, unsafe_blocks=n, reviewed=False)
-            r.violate(g, 'unreviewed-unsafe', 'block', '%s contains %d unsafe block(s) but is not reviewed unsafe code' % (g, n), where=ctx.where(g) if g in prog.bodies else None,
-                      expected='entry in tables/unsafe_sites.json with its obligation')
+        ent = want[g]
+        r.instance(group=g, unsafe_blocks=n, reviewed='module', obligation=ent['obligation'], discharged_by=ent['by'])
+    # cache-level unsafe blocks: wherever they live (the enclosing function may be split, merged or renamed), each may only perform
+    # operations of a reviewed class
+    classes = table['cache_level_ops']
+    for u in cache_level:
+        owner = norm(u['owner'])
+        b = prog.bodies.get(owner)
+        ops = []
+        if b is not None:
+            for bi, t in b.calls():
+                if t.get('callee_unsafe') and not t.get('exp') and u['span']['lo'] <= (t.get('line') or -1) <= u['span']['hi']:
+                    callee = norm(t.get('callee') or '')
+                    st_ = (t.get('self_ty') or {}).get('adt') or ''
+                    ops.append((callee, st_))
+        where_ = '%s:%s' % (u['span']['file'], u['span']['lo'])
+        if not ops:
+            r.instance(unsafe_block_in=owner, operations=[], reviewed=False)
+            r.violate(owner, 'unreviewed-unsafe', 'non-call unsafe operation', 'unsafe block in %s performs an unsafe operation that is not a call (raw dereference, '
+                      'static mut, union access): not a reviewed class of unsafe code outside the pointer modules' % owner, where=where_)
             continue
-        r.instance(group=g, unsafe_blocks=n, reviewed=ent.get('blocks', 'module'), obligation=ent['obligation'], discharged_by=ent['by'])
-        if 'blocks' in ent and n > ent['blocks']:
-            r.violate(g, 'unreviewed-unsafe', 'block#%d' % n, '%s now contains %d unsafe blocks, %d reviewed' % (g, n, ent['blocks']), where=ctx.where(g) if g in prog.bodies else None)
+        for callee, st_ in ops:
+            cls = None
+            for k_, ent in classes.items():
+                if callee == ent['callee'] and (not ent.get('on') or st_ == ent['on']):
+                    cls = k_
+            if cls is None and callee in prog.bodies and prog.bodies[callee].unsafe_fn and group_of(callee):
+                cls = 'list-operation'
+            r.instance(unsafe_block_in=owner, operation=callee, on=st_, klass=cls,
+                       obligation=(classes.get(cls) or {}).get('obligation', 'membership of the node in the deque: PTR-guarded-call decides every such call site'))
+            if cls is None:
+                r.violate(owner, 'unreviewed-unsafe', callee.split('::')[-1], 'unsafe block in %s calls %s (on %s): not a reviewed class of unsafe operation outside the pointer '
+                          'modules' % (owner, callee, st_ or '?'), where=where_, expected='only reads of a deque node through its pointer (NonNull<DeqNode>::as_ref) or guarded list operations')
     ufns = sorted(b.nid for b in prog.bodies.values() if b.unsafe_fn)
     for fn in ufns:
         ok = fn in table['unsafe_fns'] or any(fn.startswith(g) for g in table['module_groups'])
@@ -359,7 +396,6 @@ def rule_ptr_guarded_call(ctx):
     unsafe_ops = {n for n in prog.bodies if prog.bodies[n].unsafe_fn and n.startswith('common::deque::Deque::')}
     if len(unsafe_ops) < 3:
         raise CheckFailure('PTR-guarded-call: unsafe deque operations not found: %s' % sorted(unsafe_ops))
-    exceptions = load_table('unsafe_sites.json')['unguarded_list_calls']
     n = 0
     callers = sorted({c for u in unsafe_ops for c in prog.callers().get(u, ()) if not c.startswith('common::deque::')})
     for c in callers:
@@ -370,6 +406,7 @@ def rule_ptr_guarded_call(ctx):
         except PathLimit:
             raise CheckFailure('PTR-guarded-call: path limit in %s' % c)
         per_site = defaultdict(list)
+        per_node = defaultdict(list)
         for p in paths:
             for e in p.events:
                 if e[0] == 'call' and e[1] in unsafe_ops:
@@ -382,14 +419,19 @@ def rule_ptr_guarded_call(ctx):
                             if d2 == deq and same_node:
                                 guarded = True
                     per_site[(e[1], e[3])].append(guarded)
+                    if not guarded:
+                        per_node[(e[1], e[3])].append(node)
         for (op, line), gs in sorted(per_site.items()):
             n += 1
             ok = all(gs)
-            root_ = prog.bodies[c].root or c
-            from .roles import _FALLBACK, named as _nm
-            root_ = next((_FALLBACK[k_] for k_ in _FALLBACK if _nm(ctx, k_) == root_), root_)
-            key = '%s|%s' % (root_, op.split('::')[-1])
-            exc = exceptions.get(key)
+            exc = None
+            if not ok:
+                # structural exception: every unguarded node is an element of the node lists returned by the admission scan of the same step
+                # (obtained from this deque's own traversal under the exclusive borrow / deques mutex; nothing but identity-guarded victims is
+                # freed in between -- STALE-removal)
+                nodes = per_node[(op, line)]
+                if nodes and all(_from_admission(ctx, c, nd_) for nd_ in nodes):
+                    exc = {'reason': 'node taken from the node lists returned by the admission scan in the same maintenance step'}
             r.instance(caller=c, operation=op.split('::')[-1], paths=len(gs), guarded_on_all=ok, exception=exc['reason'] if (exc and not ok) else None)
             if not ok and not exc:
                 r.violate(c, 'unguarded-list-call', op.split('::')[-1], '%s calls the unsafe %s on a path where membership of the node in that deque was not established '
@@ -397,6 +439,37 @@ def rule_ptr_guarded_call(ctx):
                           where=ctx.where(c, line), expected='if deq.contains(node) { unsafe { deq.%s(node) } }' % op.split('::')[-1])
     r.require_floor(12 if ctx.has_sync else 5, 'unsafe list-operation call sites')
     return r
+
+
+def _from_admission(ctx, fn, node, _depth=0):
+    """node term is an element of a value returned by the admission role; through one level of helper parameters."""
+    from .rules_admit import admits
+    adm = {a for a, _k in admits(ctx) if ctx.has_sync or _k == 'unsync'}
+    if any(isinstance(x, tuple) and x and x[0] == 'call' and x[1] in adm for x in subterms(node)):
+        return True
+    params = {x[1] for x in subterms(node) if isinstance(x, tuple) and x and x[0] == 'param'}
+    if not params or _depth >= 2:
+        return False
+    callers = sorted(ctx.prog.callers().get(fn, ()))
+    if not callers:
+        return False
+    for cl in callers:
+        sx = ctx.symex(inline_depth=0, loop_visits=2)
+        try:
+            paths = sx.run(cl)
+        except PathLimit:
+            return False
+        found = False
+        for p in paths:
+            for e in p.events:
+                if e[0] == 'call' and e[1] == fn:
+                    found = True
+                    for i in params:
+                        if i - 1 >= len(e[2]) or not _from_admission(ctx, cl, e[2][i - 1], _depth + 1):
+                            return False
+        if not found:
+            return False
+    return True
 
 
 def _same_ptr(a, b):
